@@ -333,14 +333,14 @@ def rule_b3(ck, prog, S):
                         any(x.k == "CallExpr" and x.get("callee") == "SCPI_GetNativeFormat" for x in a.walk()) and \
                         any(x.get("path") == fmtp for x in a.walk()):
                     native = pol
-            if native is None:
-                probs.append("a path does not compare the native with the requested byte order")
-                continue
             calls = [c.get("callee") for c in ps.calls]
             pushes = [C.const_of(K.arg(c, 1)) for c in ps.calls if (c.get("callee") or "").startswith("SCPI_ErrorPush")]
             if width == 3:
                 if pushes != [-310] or any(c in calls for c in ("SCPI_ResultArbitraryBlock", "SCPI_ResultArbitraryBlockHeader", "SCPI_ResultArbitraryBlockData")):
                     probs.append("an unsupported element width is not refused with -310 before anything is emitted")
+                continue
+            if native is None:
+                probs.append("a path does not compare the native with the requested byte order")
                 continue
             if native:
                 seen_native += 1
